@@ -2,6 +2,7 @@ package props
 
 import (
 	"fmt"
+	"math"
 	"strings"
 
 	"verifharness/internal/fw"
@@ -10,7 +11,7 @@ import (
 	"verifharness/internal/val"
 )
 
-var c05Floor = []string{"keys.1", "keys.2", "keys.3", "dir.asc", "dir.desc", "dir.mixed", "key.null", "key.alias", "key.str", "key.num", "ties",
+var c05Floor = []string{"keys.1", "keys.2", "keys.3", "dir.asc", "dir.desc", "dir.mixed", "key.null", "key.computed-null", "key.alias", "key.str", "key.num", "ties", "limit.huge",
 	"limit.bare", "limit.offset", "limit.comma", "limit.zero", "offset.beyond", "window.straddle", "window.inside", "window.noorder", "where"}
 
 func init() {
@@ -70,9 +71,18 @@ func c05Order(c *fw.Case) {
 			cands[0] = gen.Pick(c.R, []string{"z1", "z2"})
 			feats = append(feats, "key.null")
 		}
+		computedNull := nk == 1 && (force == "key.computed-null" || c.Chance(0.12))
 		for i := 0; i < nk; i++ {
 			col := cands[i]
 			out := col
+			if computedNull {
+				// a computed key that is NULL on the rows where z1 is NULL or missing
+				items = append(items, "(n1 + z1) AS kc")
+				aliasOf["kc"] = "kc"
+				keys = append(keys, c05Key{out: "kc", desc: force == "key.computed-null" || c.Chance(0.6)})
+				feats = append(feats, "key.computed-null", "key.null", "key.alias", "key.num")
+				continue
+			}
 			if force == "key.alias" && i == 0 || c.Chance(0.3) {
 				out = "k" + fmt.Sprint(i)
 				items = append(items, col+" AS "+out)
@@ -160,7 +170,7 @@ func c05Order(c *fw.Case) {
 		m, _ := row.(map[string]any)
 		out := make([]any, len(keys))
 		for i, k := range keys {
-			out[i] = m[k.out]
+			out[i] = val.Deref(m[k.out])
 		}
 		return out
 	}
@@ -233,6 +243,9 @@ func c05Order(c *fw.Case) {
 	choices := []int{0, 1, n - 1, n, n + 1, 2 * n, n / 2}
 	lim := gen.Pick(c.R, choices)
 	off := gen.Pick(c.R, choices)
+	if force == "" && c.Chance(0.06) {
+		lim = gen.Pick(c.R, []int{math.MaxInt64, math.MaxInt64 - 1, 1 << 62, math.MaxInt32})
+	}
 	if lim < 0 {
 		lim = 0
 	}
@@ -249,6 +262,8 @@ func c05Order(c *fw.Case) {
 		spelling = 2
 	case "limit.zero":
 		lim = 0
+	case "limit.huge":
+		lim, off, spelling = gen.Pick(c.R, []int{math.MaxInt64, math.MaxInt64 - 1, 1 << 62, math.MaxInt32}), c.Intn(n+2), 1+c.Intn(2)
 	case "offset.beyond":
 		off, spelling = n+1+c.Intn(3), 1+c.Intn(2)
 	case "window.straddle":
@@ -275,6 +290,9 @@ func c05Order(c *fw.Case) {
 	}
 	if lim == 0 {
 		feats = append(feats, "limit.zero")
+	}
+	if lim > 1<<40 {
+		feats = append(feats, "limit.huge")
 	}
 	if off > n {
 		feats = append(feats, "offset.beyond")
